@@ -3015,20 +3015,31 @@ PPL::Grid::wrap_assign(const Variables_Set& vars,
     for (Variables_Set::const_iterator i = vars.begin(),
            vars_end = vars.end(); i != vars_end; ++i) {
       const Variable x(*i);
-      // Find the frequency and a value for `x' in `gr'.
-      if (!gr.frequency_no_check(x, f_n, f_d, v_n, v_d)) {
-        continue;
-      }
-      if (f_n == 0) {
-
-        // `x' is a constant in `gr'.
-        if (v_d != 1) {
-          // The value for `x' is not integral (`frequency_no_check()'
-          // ensures that `v_n' and `v_d' have no common divisors).
-          set_empty();
+      // Find the frequency and a value for `x' in the current grid
+      // (which may have been modified while wrapping previous variables).
+      if (!frequency(Linear_Expression(x), f_n, f_d, v_n, v_d)) {
+        if (is_empty()) {
           return;
         }
+        // The values of `x' are not discrete: when overflow wraps,
+        // any of them may wrap to a value modulo the `wrap_frequency'.
+        if (o == OVERFLOW_WRAPS) {
+          add_grid_generator(parameter(wrap_frequency * x));
+        }
+        continue;
+      }
+      if (f_d != 1 || v_d != 1) {
+        // `x' also takes non-integral values: only the integral ones matter.
+        add_congruence((x %= 0) / 1);
+        if (!frequency(Linear_Expression(x), f_n, f_d, v_n, v_d)) {
+          // `x' has no integral value: the grid is now empty.
+          return;
+        }
+      }
+      // Here `x' only takes integral values.
+      PPL_ASSERT(f_d == 1 && v_d == 1);
 
+      if (f_n == 0) {
         // `x' is a constant and has an integral value.
         if ((v_n > max_value) || (v_n < min_value)) {
           // The value is outside the range of the bounded integer type.
@@ -3038,53 +3049,59 @@ PPL::Grid::wrap_assign(const Variables_Set& vars,
             return;
           }
           PPL_ASSERT(o == OVERFLOW_WRAPS);
-          // The value v_n for `x' is wrapped modulo the 'wrap_frequency'.
+          // The value v_n for `x' is wrapped modulo the 'wrap_frequency'
+          // into the range of the bounded integer type.
+          v_n -= min_value;
           v_n %= wrap_frequency;
-          // `v_n' is the value closest to 0 and may be negative.
-          if (r == UNSIGNED && v_n < 0) {
+          if (v_n < 0) {
             v_n += wrap_frequency;
           }
+          v_n += min_value;
           unconstrain(x);
           add_constraint(x == v_n);
         }
         continue;
       }
 
-      // `x' is not a constant in `gr'.
-      PPL_ASSERT(f_n != 0);
-
-      if (f_d % v_d != 0) {
-        // Then `x' has no integral value and hence `gr' is set empty.
-        set_empty();
-        return;
-      }
-      if (f_d != 1) {
-        // `x' has non-integral values, so add the integrality
-        // congruence for `x'.
-        add_congruence((x %= 0) / 1);
-      }
-      if (o == OVERFLOW_WRAPS && f_n != wrap_frequency) {
-        // We know that `x' is not a constant, so, if overflow wraps,
-        // `x' may wrap to a value modulo the `wrap_frequency'.
-        add_grid_generator(parameter(wrap_frequency * x));
-      }
-      else if ((o == OVERFLOW_IMPOSSIBLE && 2*f_n >= wrap_frequency)
-               || (f_n == wrap_frequency)) {
-        // In these cases, `x' can only take a unique (ie constant)
-        // value.
-        if (r == UNSIGNED && v_n < 0) {
-          // `v_n' is the value closest to 0 and may be negative.
-          v_n += f_n;
+      // `x' is not a constant.
+      if (o == OVERFLOW_WRAPS) {
+        if (f_n % wrap_frequency == 0) {
+          // All the values of `x' wrap to the same value.
+          v_n -= min_value;
+          v_n %= wrap_frequency;
+          if (v_n < 0) {
+            v_n += wrap_frequency;
+          }
+          v_n += min_value;
+          unconstrain(x);
+          add_constraint(x == v_n);
         }
-        unconstrain(x);
-        add_constraint(x == v_n);
+        else {
+          // `x' may wrap to a value modulo the `wrap_frequency'.
+          add_grid_generator(parameter(wrap_frequency * x));
+        }
       }
       else {
-        // If overflow is impossible but the grid frequency is less than
-        // half the wrap frequency, then there is more than one possible
-        // value for `x' in the range of the bounded integer type,
-        // so the grid is unchanged.
-        PPL_ASSERT(o == OVERFLOW_IMPOSSIBLE && 2*f_n < wrap_frequency);
+        PPL_ASSERT(o == OVERFLOW_IMPOSSIBLE);
+        // Compute the least value of `x' not less than `min_value'.
+        v_n -= min_value;
+        v_n %= f_n;
+        if (v_n < 0) {
+          v_n += f_n;
+        }
+        v_n += min_value;
+        if (v_n > max_value) {
+          // No value of `x' is in the range of the bounded integer type.
+          set_empty();
+          return;
+        }
+        if (v_n + f_n > max_value) {
+          // Exactly one value of `x' is in the range.
+          unconstrain(x);
+          add_constraint(x == v_n);
+        }
+        // Otherwise there is more than one possible value for `x' in the
+        // range of the bounded integer type, so the grid is unchanged.
       }
     }
     return;
